@@ -672,6 +672,16 @@ func runSchemaPos(rep *vh.Report) {
 				rep.AddDiff(vh.Diff{Component: "C17-schema-pos", Input: in, Impl: c + " | " + got.desc, Model: model + ", rendered with the line number, left-trimmed source line and caret of that offset"})
 				break
 			}
+			// the same error through the SDK facade, converted for the victim's file, for every other file of the run
+			// (root, types, a document) and for companions
+			own := runFile{"the text of " + victim, fileName, []byte(txt)}
+			others := []runFile{{"the document text `{}`", "doc", []byte("{}")}}
+			for _, nm := range g.order {
+				if nm != victim {
+					others = append(others, runFile{"the text of " + nm, cfg.nm.fileOf(nm), []byte(texts[nm])})
+				}
+			}
+			reportFacade(rep, in, got.obs, own, others)
 			if run == 0 {
 				first = got
 				continue
